@@ -221,8 +221,11 @@ def ResExtra.norm (e : ResExtra) : ResExtra :=
     epochNumber := if hasBit e.flags 27 then e.epochNumber else 0,
     viewNumber := if hasBit e.flags 27 then e.viewNumber else 0 }
 
-/-- mask-consistent: a field is non-default only if its bit is set -/
-def ReqExtra.consistent (e : ReqExtra) : Bool := e.norm == e
-def ResExtra.consistent (e : ResExtra) : Bool := e.norm == e
+/-- mask-consistent: a field is non-default only if its bit is set (what the generated `Set…`/`Clear…`
+accessors maintain) -/
+def ReqExtra.consistent (e : ReqExtra) : Prop := e.norm = e
+def ResExtra.consistent (e : ResExtra) : Prop := e.norm = e
+instance (e : ReqExtra) : Decidable e.consistent := inferInstanceAs (Decidable (e.norm = e))
+instance (e : ResExtra) : Decidable e.consistent := inferInstanceAs (Decidable (e.norm = e))
 
 end TLVerif.Rpcextra
